@@ -37,6 +37,7 @@ func c12Run(t *testing.T, r *vfRand, nPeers, nActions, k int, rejectedOut *[]pee
 	ids := make([]peer.ID, nPeers)
 	fails := make(map[peer.ID]bool) // current behaviour: requests to the peer fail
 	hangs := make(map[peer.ID]bool) // current behaviour: the peer accepts the liveness probe and never answers it
+	gone := make(map[peer.ID]bool)  // the peer has disconnected for good (no connection, every request fails)
 	for i := range ids {
 		ids[i] = simPeerID(r)
 	}
@@ -202,6 +203,15 @@ func c12Run(t *testing.T, r *vfRand, nPeers, nActions, k int, rejectedOut *[]pee
 		case x < 42: // the peer stops speaking the protocol
 			p := ids[r.Intn(len(ids))]
 			cur.action = "protocols-removed"
+			if r.Chance(40) {
+				// the peer has gone away altogether by the time the report is processed: no connection is
+				// left and its requests fail from now on
+				node.h.net.mu.Lock()
+				node.h.net.notConnected[p] = true
+				node.h.net.mu.Unlock()
+				fails[p] = true
+				gone[p] = true
+			}
 			_ = node.h.ps.RemoveProtocols(p, proto)
 			cur.events = append(cur.events, fmt.Sprintf("PeerChange %s false", kad(p)))
 			// reported by an identify push, or found out when the peer is identified again on a new connection
@@ -215,6 +225,9 @@ func c12Run(t *testing.T, r *vfRand, nPeers, nActions, k int, rejectedOut *[]pee
 		case x < 55: // behaviour flips
 			cur.action = "flip"
 			p := ids[r.Intn(len(ids))]
+			if gone[p] {
+				break // a peer that has gone away stays away
+			}
 			if r.Chance(35) {
 				hangs[p] = !hangs[p]
 			} else {
